@@ -38,6 +38,10 @@ UNIVERSES = {
     # iteration order is not ascending (used by C03)
     "cplx": (["cz", "cx"], [[1j, 2j, 3j], [0.5, 0.25, 2.5, 7.0, -1.0]]),
     "2x2x2x2": (["d", "a", "c", "b"], [[1, 2], [4, 3], ["u", "v"], [0.5, 0.25]]),
+    # floats with many decimals; a small all-integer universe (its cases are
+    # also handed over as rows of a numpy table)
+    "floatl": (["a", "b"], [[0.1 + 0.2, 1 / 3, 2 / 3], [2, 1]]),
+    "2x2i": (["a", "b"], [[2, 1], [9, 7]]),
 }
 KINDS = ["num", "bool", "str", "tuple2", "list", "array", "dict", "dataset",
          "iarray", "npstr"]
@@ -53,7 +57,8 @@ def orders(sub):
 
 
 def cases(tier, seed):
-    unis = ["1s", "1n", "2x2", "3x2", "2x2x2", "mixnum", "tupval"] + (
+    unis = ["1s", "1n", "2x2", "3x2", "2x2x2", "mixnum", "tupval", "floatl",
+            "2x2i"] + (
         ["3x3", "2x2x2x2"] if tier == "thorough" else [])
     j = 0
     for u in unis:
@@ -221,6 +226,10 @@ def check_case(case):
                     # a single argument: bare values and a bare name
                     tcases = [c[0] for c in chosen]
                     fa = names[0] if case["keyrot"] == 2 else names
+                if case["uni"] == "2x2i" and not case.get("oneshot"):
+                    # (the rows of a numpy table: sequences, but neither
+                    # tuples nor lists)
+                    tcases = list(np.array(chosen))
                 if kwonly:
                     fa = None
                 elif case.get("partial") and len(names) >= 2 and \
